@@ -62,16 +62,16 @@ LEVEL_TEXT = (
     "spellings dash/colon/cisco/bare), --unique = first occurrences by spelling, line mode = lines.filter (macgrep_filter, macgrep_unique, "
     "macgrep_line_filter, macWordMatches_iff, macgrep_modes); parent/child/branch/diff print exactly the API result for the arguments the code "
     "passes: CiscoConfParse(config=file, syntax=-s).find_parent_objects/find_child_objects/find_object_branches(args.split(delimiter)) file after "
-    "file, Diff(read(f0), read(f1)).get_diff()/get_rollback() by -m (cli_is_api_parent, cli_is_api_child, cli_is_api_branch_raw, "
-    "cli_is_api_branch_original, sortLines_spec, cli_is_api_diff); that `diff` never passes -s is itself a theorem about the code as written "
-    "(diff_ignores_syntax, known finding F48). The model is tied to cli_script.py by differential runs of the real ccp_script_entry on every check."
+    "file, Diff(read(f0), read(f1), syntax=-s).get_diff()/get_rollback() by -m (cli_is_api_parent, cli_is_api_child, cli_is_api_branch_raw, "
+    "cli_is_api_branch_original, sortLines_spec, cli_is_api_diff, diff_honours_syntax — F48, `diff` not passing -s, was repaired in /repo). "
+    "The model is tied to cli_script.py by differential runs of the real ccp_script_entry on every check."
 )
 LEVEL_NOTE = (
     "Trusted: Lean kernel; axioms propext/Classical.choice/Quot.sound only; the correspondence harness. Modelled, not verified: argparse "
     "(the model starts from the parsed Namespace), file reading, re.split / re.search (oracle rows computed with `re` directly), the text -> "
     "(ip, prefixlen) reading of IPv4Obj/IPv6Obj and the address text (oracle rows; C11), the CiscoConfParse / Diff API results (oracle rows "
     "obtained by direct API calls; C04/C10). In line mode with --exclude-hosts the code drops a line as soon as one of its contained words is a "
-    "host; the theorem states that reading. Known finding F48: `ccp diff -s <syntax>` never passes the syntax to Diff()."
+    "host; the theorem states that reading."
 )
 EXHAUSTIVE = {"quick": False, "thorough": False}
 ASSUMPTIONS = [
@@ -589,9 +589,7 @@ def diff_oracle(case, ans):
 
 
 def known_id(case, failure):
-    if case.get("kind") == "diff" and case.get("syntax") not in (None, "ios") and failure.startswith("diff: -s "):
-        return "F48"
-    return None
+    return None      # F48 (diff ignored -s) is repaired; a recurrence is a violation
 
 
 # ------------------------------------------------------------------------------------------
